@@ -1,8 +1,11 @@
 (* The decoders the properties talk about, as instances of the generic format. *)
 From Coq Require Import List NArith Arith Bool Lia.
-From LBZ Require Import Common.Bits Dec.Prog Dec.Format Dec.Delta.
+From LBZ Require Import Common.Bits Dec.Prog Dec.Format Dec.Delta Gen.DecTabs.
 Import ListNotations.
 Local Open Scope N_scope.
+
+(* the bzip2 format: 900000-byte blocks plus the end-of-block symbol need at most 18001 groups of 50 *)
+Definition format_sel_clamp : N := 18001.
 
 Definition complete_only (lens : list N) : result unit :=
   if kraft lens =? kraft_full then Ok tt
@@ -13,23 +16,23 @@ Definition not_oversubscribed (lens : list N) : result unit :=
 
 (* what lbzip2 -d does (model of decode.c / parse.c / the checks of expand.c) *)
 Definition lbz_policy : policy :=
-  {| delta_reader := win_delta; table_check := complete_only; runlen_strict := true |}.
+  {| delta_reader := win_delta; table_check := complete_only; runlen_strict := true; sel_clamp := sel_clamp_value |}.
 
 (* the strict bzip2 1.0.x format: every single delta step in range, used tables
    must be prefix codes (an incomplete one is fine as long as no missing code is
    met), a block must not end after four equal bytes without their count
    (libbz2 1.0.x and tests/minbzcat.c reject that too) *)
 Definition ref_policy : policy :=
-  {| delta_reader := strict_delta; table_check := not_oversubscribed; runlen_strict := true |}.
+  {| delta_reader := strict_delta; table_check := not_oversubscribed; runlen_strict := true; sel_clamp := format_sel_clamp |}.
 
 (* the most lenient reading of "a conforming encoder's output": additionally a
    block may end after four equal bytes (they are then plain bytes) *)
 Definition ref_lenient_policy : policy :=
-  {| delta_reader := strict_delta; table_check := not_oversubscribed; runlen_strict := false |}.
+  {| delta_reader := strict_delta; table_check := not_oversubscribed; runlen_strict := false; sel_clamp := format_sel_clamp |}.
 
 (* the strict format minus the two documented exceptions of lbzip2 *)
 Definition ref_noexc_policy : policy :=
-  {| delta_reader := strict_delta; table_check := complete_only; runlen_strict := true |}.
+  {| delta_reader := strict_delta; table_check := complete_only; runlen_strict := true; sel_clamp := format_sel_clamp |}.
 
 Definition lbz_decode (file : list N) : result (list N) := decode_file lbz_policy file.
 Definition ref_decode (file : list N) : result (list N) := decode_file ref_policy file.
